@@ -19,7 +19,8 @@ def runCert (fs : List String) : String × String :=
   let firstSecret := if kv fs "prename" != "" then kv fs "prename" else ((seq.head?.getD "").splitOn ",").head?.getD ""
   let c0 : Nic.Arb.Map (Obj String) :=
     if pre == "unowned" then [(firstSecret, ⟨.none, "foreign"⟩)]
-    else if pre == "foreign" then [(firstSecret, ⟨.other, "foreign"⟩)] else []
+    else if pre == "foreign" then [(firstSecret, ⟨.other, "foreign"⟩)]
+    else if pre == "ownedstale" then [(if kv fs "prename" != "" then kv fs "prename" else "s0", ⟨.own, "stale"⟩)] else []
   let (_, outs) := seq.foldl (fun (acc : Nic.Arb.Map (Obj String) × List String) s =>
     let c := acc.1
     let d := desiredCert s
